@@ -122,6 +122,8 @@ Proof.
   intros s o s' evs I A. apply accepted_exec in A. pose proof (inv_pool_nodup _ I) as NDp. destruct o; simpl in A.
   - destruct (send_spec _ _ _ _ _ _ _ _ A) as (_ & _ & _ & _ & _ & _ & _ & _ & _ & -> & _).
     intros e [<-|[]]; simpl; auto.
+  - destruct (send_p_spec _ _ _ _ _ _ _ _ A) as (_ & _ & _ & _ & _ & _ & _ & _ & _ & -> & _).
+    intros e [<-|[]]; simpl; auto.
   - destruct (cancel_spec _ _ _ _ _ NDp A) as (x & _ & _ & _ & _ & _ & _ & _ & _ & _ & _ & -> & _).
     intros e [<-|[]]; simpl; auto.
   - destruct (increase_spec _ _ _ _ _ _ _ _ NDp A) as (_ & x & L & _ & _ & _ & _ & _ & _ & _ & _ & _ & _ & _ & -> & _).
@@ -159,6 +161,7 @@ Proof.
   intros s o I. destruct (step_state_cases s o) as [(evs & A)|E]; [|rewrite E; auto].
   set (s' := step_state s o) in *. clearbody s'. pose proof (inv_pool_nodup _ I) as NDp. destruct o; simpl in A.
   - left. destruct (send_spec _ _ _ _ _ _ _ _ A) as (_ & _ & _ & _ & _ & _ & _ & _ & E & _); auto.
+  - left. destruct (send_p_spec _ _ _ _ _ _ _ _ A) as (_ & _ & _ & _ & _ & _ & _ & _ & E & _); auto.
   - left. destruct (cancel_spec _ _ _ _ _ NDp A) as (x & R). decompose [and] R. auto.
   - left. destruct (increase_spec _ _ _ _ _ _ _ _ NDp A) as (_ & x & L & R). decompose [and] R. auto.
   - left. destruct (request_batch_spec _ _ _ _ _ _ _ _ _ NDp (inv_bnlt _ I) A) as (b & R). decompose [and] R. auto.
